@@ -6,7 +6,8 @@ records whether the loop counter that was initialised from dmax has been seen at
 true ...).  A success return on such a path is a silent truncation: the documented behaviour is ESNOSPC with dest cleared.
 Together with C05's proof obligation for nested copies (a measured strlen(src) < dmax must be entailed where the result of a nested
 copy is ignored) this is the statically visible part of C06.  Equality of the stored bytes with the libc counterpart, the word-unrolled
-primitives at every alignment/length, and returned pointers/counts are value-level and NOT decided."""
+primitives at every alignment/length, and returned counts are value-level and NOT decided.  Returned pointers (stpcpy_s/stpncpy_s) are
+decided: see pointer_rule()."""
 import os
 from ..ir import Program, exit_line, exit_message
 from ..lin import Lin
@@ -14,6 +15,7 @@ from ..pathflags import BudgetExceeded, run_adaptive
 from ..flags import TFlags
 from .. import frontend, api, par
 from .c05 import convention, STATUS_OK, describe, OPAQUE
+from . import dest_common as dc
 
 NON_TRUNCATING = ("_strcpy_s_chk", "_strcat_s_chk", "_strncpy_s_chk", "_strncat_s_chk", "_stpcpy_s_chk", "_stpncpy_s_chk",
                   "_wcscpy_s_chk", "_wcscat_s_chk", "_wcsncpy_s_chk", "_wcsncat_s_chk")
@@ -47,6 +49,37 @@ def worker(prog, name):
     return dict(findings=list(finds.values()), success_paths=nsucc, exhausted_paths=nexh, budget_counters=len(eng.plugin.budget_phis), states=eng.nstates)
 
 
+POINTER_RETURNING = ("_stpcpy_s_chk", "_stpncpy_s_chk")
+
+
+def pointer_worker(prog, name):
+    return dc.explore(prog, name)
+
+
+def pointer_rule(ck, prog, names, report):
+    """clause 'any returned pointer refers to the result correctly': stpcpy_s/stpncpy_s return the address of the terminating null.
+    The destination typestate remembers where the terminator is (the first zero stored since the last non-zero store, or the element a test
+    proved zero; followed through merge phis); at every non-null pointer return into dest that position must equal the returned pointer."""
+    res, err = par.pmap(prog, pointer_worker, names)
+    for n, e in err.items():
+        ck.fail_broken("%s: internal error: %s" % (n, e.strip().splitlines()[-1]))
+    out = {}
+    for n in names:
+        r = res.get(n)
+        if not r or "outcomes" not in r:
+            ck.fail_broken("%s: pointer clause not decided (%s)" % (n, (r or {}).get("budget", "no result"))); continue
+        ptr = [o for o in r["outcomes"] if o["ret"] == "pointer" and o["err"] is not True]
+        bad = [o for o in ptr if o["ret_at_term"] is not True]
+        out[api.base_name(n)] = dict(pointer_returns=len(ptr), not_at_terminator=len(bad))
+        if not ptr:
+            ck.fail_broken("%s: no pointer-returning success path found" % n)
+        for o in bad:
+            report("C06:returned-pointer-not-at-terminator:%s:%s" % (api.base_name(n), "unknown-terminator" if not o["has_term"] else "elsewhere"), "C-returned-pointer-is-the-terminator",
+                   "%s:%s" % (r["file"], o["line"]), "%s: the pointer returned on this success path is not known to be the address of the terminating null "
+                   "(the terminator was stored elsewhere, e.g. the cursor was advanced by the slack-clearing loop before it is returned)" % api.base_name(n), dict(path=o["path"]))
+    return out
+
+
 def run(ck):
     mods, info = frontend.load_modules()
     prog = Program(mods)
@@ -72,12 +105,14 @@ def run(ck):
             ck.report(f["key"], "C-no-silent-truncation", f["where"], f["text"])
     for n in list(per)[:4]:
         ck.sample(dict(function=n, **per[n]))
+    pr = pointer_rule(ck, prog, [n for n in POINTER_RETURNING if n in prog.funcs], ck.report)
     fx = selftest(ck)
-    cov = dict(explanation="All paths of the %d non-truncating copy/concatenate functions: %d success-return path classes, none of which follows an edge on which the counter initialised "
-               "from dmax is zero; the budget-exhausted exits (present in every function: the rule is not vacuous) all reach error returns." % (len(per), tot),
+    cov = dict(returned_pointers=pr, explanation="All paths of the %d non-truncating copy/concatenate functions: %d success-return path classes, none of which follows an edge on which the counter initialised "
+               "from dmax is zero; the budget-exhausted exits (present in every function: the rule is not vacuous) all reach error returns. Returned pointers: on every success path of stpcpy_s/stpncpy_s "
+               "the returned pointer equals the position of the terminating null tracked by the destination typestate." % (len(per), tot),
                obligations=tot, discharged=tot - len(ck.reports), functions=per, fixtures=fx, frontend=info,
                summary="%d functions, %d success path classes" % (len(per), tot))
-    return ck.finish(cov, ["only the 'no silent truncation' clause is decided; result equality with the libc counterparts is not", "C05's checked precondition covers nested copies whose result is ignored"])
+    return ck.finish(cov, ["decided: 'no silent truncation' and 'the returned pointer is the terminator' (stpcpy_s, stpncpy_s); result equality with the libc counterparts and returned counts are not", "C05's checked precondition covers nested copies whose result is ignored"])
 
 
 def selftest(ck):
@@ -90,4 +125,12 @@ def selftest(ck):
         out[n] = dict(findings=got, exhausted_paths=r.get("exhausted_paths"))
         if (got > 0) != bool(want) or not r.get("exhausted_paths"):
             ck.fail_broken("fixture c06.c:%s: %s" % (n, out[n]))
+    for n, want in (("fx6_stp_good_s", 0), ("fx6_stp_advanced_s", 1)):
+        got = []
+        class Sink:
+            def fail_broken(s, m): got.append("BROKEN " + m)
+        pr = pointer_rule(Sink(), prog, [n], lambda key, *a, **k: got.append(key))
+        out[n] = dict(pr.get(n, {}), reports=got)
+        if bool(got) != bool(want) or any(g.startswith("BROKEN") for g in got):
+            ck.fail_broken("fixture c06.c:%s: pointer rule gave %s" % (n, got))
     return out
